@@ -39,7 +39,8 @@ theorem inv_policy (env : Env) (t0 : Nat) (ops : List Op) :
   apply run_P
   intro op hop
   cases op with
-  | maintain now resp sc0 sc1 ord b => exact fun p hp ha => ⟨ha, mem_offered hop hp⟩
+  | maintain now resp sc0 sc1 ord b =>
+    exact Op.fetchOK_of_allowed (fun p hp ha => ⟨ha, mem_offered hop hp⟩)
   | report k id ts => trivial
   | deliver now sc => trivial
   | send now => trivial
